@@ -160,6 +160,22 @@ def run_case(desc) -> Result:  # noqa: C901, PLR0911, PLR0912
             return violation(
                 "kinematic_variable_depends_on_other_symbols", nontrivial, labels, variable=str(var), symbols=sorted(rest)[:8]
             )
+    # the statement holds for every model formulate() returns: once more on the same builder with the options that
+    # move symbols between the two dictionaries switched off again
+    if config["stable"] is not None or config["scalar_initial"]:
+        builder = prepared.builder
+        builder.config.stable_final_state_ids = None
+        builder.config.scalar_initial_state_mass = False
+        model2 = under_test("formulate(again, options reset)", builder.formulate)
+        free2 = under_test("expression", lambda: model2.expression).free_symbols
+        params2, kin2 = set(model2.parameter_defaults), set(model2.kinematic_variables)
+        labels.append("second_formulate_after_resetting_options")
+        neither = sorted(str(s) for s in free2 if s not in params2 and s not in kin2)
+        if neither:
+            return violation("symbol_neither_parameter_nor_variable", nontrivial, labels, symbols=neither[:8], model="second")
+        both = sorted(str(s) for s in free2 if s in params2 and s in kin2)
+        if both:
+            return violation("symbol_both_parameter_and_variable", nontrivial, labels, symbols=both[:8], model="second")
     return ok(
         nontrivial, labels,
         n_transitions=info["n_transitions"], n_parameters=len(params), n_variables=len(kin),
